@@ -27,6 +27,7 @@ Value expressions (``vx``):
     ["c", tx]   a class / generic alias passed as an argument     ["any"] typing.Any
 """
 import abc
+import importlib.util
 import collections.abc as cabc
 import re
 import typing
@@ -521,8 +522,13 @@ def cls_sat(tx, env, C):
         if cm != mod:
             return False
         import importlib
+        import sys
         cur = importlib.import_module(mod)
+        path = mod
         for part in rest.split("."):
+            path += "." + part
+            if not hasattr(cur, part) and path not in sys.modules and importlib.util.find_spec(path) is not None:
+                return False      # names a submodule that nobody has imported: no class of it exists yet
             cur = getattr(cur, part)
         return issubclass(C, cur)
     raise ValueError(("cls_sat on value-dependent / unknown type", tx))
